@@ -149,6 +149,14 @@ func (s *Stream) Closed() bool {
 	return s.closed
 }
 
+// SetCap changes the capacity (0 = unlimited) and wakes writers that wait for room.
+func (s *Stream) SetCap(n int) {
+	s.mu.Lock()
+	s.Cap = n
+	s.cond.Broadcast()
+	s.mu.Unlock()
+}
+
 // Snapshot returns a copy of the bytes written and not yet read.
 func (s *Stream) Snapshot() []byte {
 	s.mu.Lock()
